@@ -286,6 +286,69 @@ pub fn check_bytes(ctx: &mut Ctx, family: &str, idx: u64, input: &[u8], built_tw
     }
 }
 
+/// Names, labels and character-strings borrowed from one backing buffer, starting at the same address or overlapping: comparing
+/// and hashing them must not depend on where the bytes live (equal ⇒ equal hashes; the owned copies relate as the originals do).
+fn shared_buffer(ctx: &mut Ctx) {
+    use simple_dns::{CharacterString, Label};
+    let n = if ctx.slow_tool { 4 } else { ctx.tier.pick(300u64, 10_000u64) };
+    for idx in 0..n {
+        if !ctx.take("shared-buffer", idx) {
+            continue;
+        }
+        let mut r = ctx.rng("shared-buffer", idx);
+        // e.g. "printer-office.local": prefixes "printer", "printer-office", "printer-office.local" share their start
+        let words = ["printer", "office", "a", "ab", "abc", "local", "x1", "host"];
+        let mut text = String::new();
+        for k in 0..r.usize(2, 5) {
+            if k > 0 { text.push(*r.pick(&['-', '.', '_'])); }
+            text.push_str(*r.pick(&words));
+        }
+        ctx.case(true, fnv(text.as_bytes()) ^ 0x5BAF);
+        let case = || json!({"family": "shared-buffer", "idx": idx, "text": text});
+        let res = monitor::guard(|| {
+            let mut problems: Vec<String> = Vec::new();
+            let cuts: Vec<usize> = (1..=text.len()).filter(|i| text.is_char_boundary(*i)).collect();
+            let names: Vec<(usize, Name)> = cuts.iter().filter_map(|i| Name::new(&text[..*i]).ok().map(|n| (*i, n))).collect();
+            for (i, a) in &names {
+                for (j, b) in &names {
+                    let (ao, bo) = (a.clone().into_owned(), b.clone().into_owned());
+                    if a == b && h(a) != h(b) { problems.push(format!("eq-but-hash-differs:name-prefixes:{}:{}", i, j)); }
+                    if (a == b) != (ao == bo) { problems.push(format!("owned-copies-relate-differently:name-prefixes:{}:{}", i, j)); }
+                    if (a == b) != (bridge::obs_name(a) == bridge::obs_name(b)) && i != j && !text[..*i.max(j)].eq_ignore_ascii_case(&text[..*i.min(j)]) { problems.push(format!("names-of-different-labels-compare-equal:{}:{}", i, j)); }
+                }
+            }
+            let bytes = text.as_bytes();
+            let labels: Vec<(usize, Label)> = (1..=bytes.len().min(63)).filter_map(|i| Label::new(&bytes[..i]).ok().map(|l| (i, l))).collect();
+            for (i, a) in &labels {
+                for (j, b) in &labels {
+                    if a == b && h(a) != h(b) { problems.push(format!("eq-but-hash-differs:label-prefixes:{}:{}", i, j)); }
+                }
+            }
+            let strings: Vec<(usize, CharacterString)> = (0..=bytes.len()).filter_map(|i| CharacterString::new(&bytes[..i]).ok().map(|c| (i, c))).collect();
+            for (i, a) in &strings {
+                for (j, b) in &strings {
+                    if a == b && h(a) != h(b) { problems.push(format!("eq-but-hash-differs:character-string-prefixes:{}:{}", i, j)); }
+                    if (a == b) != (a.clone().into_owned() == b.clone().into_owned()) { problems.push(format!("owned-copies-relate-differently:character-string-prefixes:{}:{}", i, j)); }
+                }
+            }
+            problems
+        });
+        match res {
+            Err(pn) => ctx.panic_violation("comparing values borrowed from one buffer", &pn, case()),
+            Ok(problems) => {
+                ctx.count("shared_buffer_texts_compared");
+                let mut seen = HashSet::new();
+                for pr in problems {
+                    let sig: String = pr.split(':').take(2).collect::<Vec<_>>().join(":");
+                    if seen.insert(sig.clone()) {
+                        ctx.violation("eq-implies-hash-eq", &sig, format!("values cut from the text {:?}: {}", text, pr), case());
+                    }
+                }
+            }
+        }
+    }
+}
+
 /// Two spellings of one type: the named variant and `Unknown(code)` written by hand (and the same inside `RData::Empty`, inside
 /// the NULL variant and inside a record). Whatever equality says about such a pair, hashing must agree; all 65 536 codes.
 fn type_spellings(ctx: &mut Ctx) {
@@ -474,6 +537,9 @@ pub fn run(ctx: &mut Ctx) {
     }
     if ctx.family_active("type-spellings") {
         type_spellings(ctx);
+    }
+    if ctx.family_active("shared-buffer") {
+        shared_buffer(ctx);
     }
     // messages with two or three OPT records: the parser lifts one, the others stay in the section as ordinary records
     // holding OPT data (the only way such records come to exist besides building them by hand)
